@@ -338,9 +338,10 @@ META = {
                    "strings under the C03 ID domain) -- every strip/split/startswith/rsplit/float() it performs is decided by the solver; (4) `biom convert` "
                    "--to-tsv and back with --process-obs-metadata (file I/O stubbed). 1xM, Nx1 and general shapes, sorted and reordered tables.",
     'encoded': {'biom/table.py': ['delimited_self', 'to_tsv', '_extract_data_from_tsv', 'from_tsv', '_to_dense', '_iter_obs'],
-                'biom/cli/table_converter.py': ['_convert']},
+                'biom/cli/table_converter.py': ['_convert'], 'biom/cli/util.py': ['write_biom_table'], 'biom/parse.py': ['parse_biom_table', 'load_table'],
+                'biom/util.py': ['biom_open', 'is_gzip']},
     'bounds': {'quick': {'shapes': '2x2, 1x2, 2x1, 2x3', 'symbolic ids': '|id| <= 4 printable ASCII'}, 'thorough': {'shapes': '+ 3x2, 1x1, 1x3, 3x1, 1x4, 3x3'}},
-    'outside': ['str(float64) re-parses to the same double (shortest-repr axiom of CPython/numpy dtoa -- not encodable here)', 'gzip, real files, click argument parsing',
+    'outside': ['str(float64) re-parses to the same double (shortest-repr axiom of CPython/numpy dtoa -- not encodable here)', 'gzip decompression and real files (the operating system under biom_open is replaced by checks/fsmodel.py), click argument parsing',
                 'ID text outside printable ASCII in the symbolic-ID step (the concrete menus include non-ASCII)'],
     'assumptions': ['a formatted number is one token without blanks/tabs (token axiom)', 'z3 sequence theory'],
 }
